@@ -98,6 +98,9 @@ def configs(tier):
     # a transform with exactly two workers and 85 tiles, failing on an early tile
     cfgs.append(S.MultiWcs(nimg=5, W=2, fail_item=(0,), fail_exc="runtime", max_deviations=2 if tier == "quick" else 4))
     cfgs.append(S.Transform(depth=3, W=2, fail_item=(3, 1, 0), fail_exc="oserror", max_deviations=2 if tier == "quick" else 3))
+    # 256 leaves handled by ONE worker, every one failing (an exit status is eight bits wide: a worker that counts its
+    # failures and exits with the count would look successful); default schedule
+    cfgs.append(S.VisitLeaves(kind="generic", depth=4, W=1, fail_item="all", max_deviations=0))
     # an input image that cannot be LOADED: in parallel mode the dispatching process reads the images while the workers
     # are busy or waiting, so the error surfaces between two hand-offs, with live workers
     for k, e in ((0, "oserror"), (2, "runtime"), (3, "valueerror")):
